@@ -49,7 +49,13 @@ FitClause(rec, f) ==
        ELSE IF ~IsPartition(res, n) THEN "result-not-a-partition-keyed-by-member"
        ELSE IF DOMAIN res # r.alive \/ \E x \in r.alive : res[x] # r.cl[x] THEN "result-differs-from-merges"
        ELSE IF \E q \in 1..(Len(dists) - 1) : dists[q] > dists[q + 1] THEN "merges-not-monotone"
-       ELSE IF f.tree /\ ~IsTree(f.linkage, n) THEN "linkage-not-a-single-rooted-binary-tree"
+       \* a single rooted tree is promised for finite matrices; otherwise a forest (no node is a child twice)
+       ELSE IF f.tree /\ (\A p \in DOMAIN D : ~IsInf(D[p])) /\ ~IsTree(f.linkage, n)
+            THEN "linkage-not-a-single-rooted-binary-tree"
+       ELSE IF f.tree /\ \E x \in 0..(2 * n - 2) :
+                 Cardinality({q \in 1..Len(f.linkage) : f.linkage[q][1] = x})
+                   + Cardinality({q \in 1..Len(f.linkage) : f.linkage[q][2] = x}) > 1
+            THEN "linkage-node-is-a-child-twice"
        ELSE IF f.tree /\ \E q \in 1..Len(f.linkage) : Dec(f.linkage[q][3]) # dists[q] THEN "linkage-distances"
        ELSE "ok"
 
